@@ -13,8 +13,9 @@ IsStop(r) == r.stop \in {"close", "cancel"}
 \* whether the goroutine was gone once the end had been seen / Close or cancel had returned, and after the final Close
 EndSeen(r) == IsStop(r) \/ r.stop = "trace"
 
-\* --- the property, on one run r of case c (reach = ReachTable(c.hist) is evaluated once per record)
-JudgeReasons(c, r, reach) ==
+\* --- the property, on one run r of case c (adj = Adj(c.hist), acyc = AcyclicA(adj) are evaluated once per record;
+\*     J_ChildrenFirstD is J_ChildrenFirst in the form that stays cheap on deep graphs - ChildFirstLemmas.tla)
+JudgeReasons(c, r, adj, acyc) ==
   LET h == c.hist IN
   IF r.out = "skipped" THEN {}
   ELSE IF r.out = "hang" THEN {"Deadlock"}            \* a Next / Close / cancel call did not return
@@ -22,7 +23,7 @@ JudgeReasons(c, r, reach) ==
   ELSE
     (IF J_EmittedOnce(r.ids) THEN {} ELSE {"EmittedOnce"})
     \cup (IF J_OnlyWithHistory(h, r.ids) THEN {} ELSE {"OnlyWithHistory"})
-    \cup (IF J_ChildrenFirstT(h, reach, r.ids) THEN {} ELSE {"ChildrenFirst"})
+    \cup (IF J_ChildrenFirstD(h, adj, acyc, r.ids) THEN {} ELSE {"ChildrenFirst"})
     \* an undisturbed iteration that did not end in a datasource failure emits every requested relation with history
     \cup (IF r.stop = "none" /\ r.err # "dserr" /\ ~J_AllRequestedEmitted(h, c.req, r.ids) THEN {"AllRequestedEmitted"} ELSE {})
     \* Close / cancel end the iteration: the next Next is false
@@ -53,13 +54,14 @@ Verdict(ln) ==
   LET c  == ln.case
       st == RunSt(c.hist, SeqToSet(c.bad), c.req)
       n  == Len(ln.got)
-      reach == ReachTable(c.hist)
-      J  == {j \in 1 .. n : JudgeReasons(c, ln.got[j], reach) # {}}
+      adj  == Adj(c.hist)
+      acyc == AcyclicA(adj)
+      J  == {j \in 1 .. n : JudgeReasons(c, ln.got[j], adj, acyc) # {}}
       D  == {j \in 1 .. n : ModelReasons(c, ln.got[j], st) # {}}
       jm == CHOOSE j \in J : \A k \in J : j <= k
       dm == CHOOSE j \in D : \A k \in D : j <= k
   IN IF Len(ln.got) # Len(c.plans) THEN <<"DIV", 0, {"plans"}>>
-     ELSE IF J # {} THEN <<"JUDGE", jm, JudgeReasons(c, ln.got[jm], reach)>>
+     ELSE IF J # {} THEN <<"JUDGE", jm, JudgeReasons(c, ln.got[jm], adj, acyc)>>
      ELSE IF D # {} THEN <<"DIV", dm, ModelReasons(c, ln.got[dm], st)>>
      ELSE <<"OK", 0, {}>>
 
